@@ -108,6 +108,10 @@ def sibling(result):
             out.append(Violation('instance:event-reached-another-shell-instance', f"event {r.get('ev')} side {r.get('side')} client {r.get('cl')}", r['seq']))
             break
     for r in result.records:
+        if r['kind'] == 'companion_ctor' and r.get('result') != 'ok':
+            out.append(Violation('instance:another-generated-shell-in-the-program-broken',
+                                 f"the companion shell (same component, other facilities origin) rejects a locator that is valid for it: {r.get('what')}", r['seq']))
+    for r in result.records:
         if r['kind'] != 'sibling_check':
             continue
         if 'exc' in r:
